@@ -13,7 +13,9 @@ package protocol
 //@ pure func hasMagic(d []byte) bool = len(d) >= 4 && d[0] == 0xB9 && d[1] == 0x0E && d[2] == 0x43 && d[3] == 0xB4
 
 // wellFormed: the header of d is a valid envelope header for type t (the property's "the envelope it encodes")
-//@ pure func wellFormed(d []byte, t msgType) bool = len(d) >= 8 && hasMagic(d) && d[4] == 0 && d[7] == byte(t) && int(d[5]) <= len(d)
+// (the header length is "the offset of the payload" - documentation/envelope_protocol.md - and the fixed part of the
+//  header is 8 bytes: a header length below 8 would put the payload inside the header and is not an envelope)
+//@ pure func wellFormed(d []byte, t msgType) bool = len(d) >= 8 && hasMagic(d) && d[4] == 0 && d[7] == byte(t) && 8 <= int(d[5]) && int(d[5]) <= len(d)
 //@ pure func crcFlag(d []byte) bool = int(d[6]) % 2 == 1
 //@ pure func crcOK(d []byte) bool = int(d[5]) == 12 && len(d) >= 12 && be32(d, 8) == crc32c(d[12:])
 
